@@ -312,6 +312,12 @@ impl Matrix {
             assert_eq!(size % nrows as usize, 0, "invalid shape");
             self.nrows = nrows as usize;
             self.ncols = size / nrows as usize;
+        } else if nrows == 0 && ncols == 0 {
+            // the empty 0x0 matrix (`Matrix::empty()`) is the only shape with a zero dimension
+            // that can be asked for, and only a matrix without elements has it
+            assert_eq!(size, 0, "invalid shape");
+            self.nrows = 0;
+            self.ncols = 0;
         } else {
             panic!("invalid shape");
         }
@@ -333,6 +339,9 @@ impl Matrix {
             assert!(ncols == -1 && nrows > 0, "invalid shape");
             // automatically determine number of columns
             (nrows, size / nrows)
+        } else if nrows == 0 && ncols == 0 {
+            // 0x0: `Matrix::new` accepts it exactly when there are no elements
+            (0, 0)
         } else {
             panic!("invalid shape");
         };
